@@ -363,40 +363,25 @@ func runC03(c *Ctx) {
 	// belongs to the argument's form (the variable through GetValue, a nested node through its Evaluate),
 	// not something derived from it -- a pointer-injected number dereferenced on the way reaches the callee
 	// as a copy, and what the callee writes through it is lost
+	isNodeEval := func(call *ssa.Call) bool {
+		cal := call.Call.StaticCallee()
+		return cal != nil && cal.Name() == "Evaluate" && cal.Pkg != nil && cal.Pkg.Pkg.Path() == pBase
+	}
 	if f := c.MustFn("I4-positional", "internal/base", "Arg", "Evaluate"); f != nil {
-		x := c.Index(f)
-		bad, badPos, n := "", f.Pos(), 0
-		eachInstr(f, func(in ssa.Instruction) {
-			r, isRet := in.(*ssa.Return)
-			if !isRet || len(r.Results) != 2 || bad != "" {
-				return
-			}
-			for _, pv := range x.ValuesAt(r.Results[0], r) {
-				if pv.V == nil {
-					continue
-				}
-				o := x.Origin(pv.V)
-				if ex, isEx := o.(*ssa.Extract); isEx && ex.Index == 0 {
-					if call, isCall := ex.Tuple.(*ssa.Call); isCall {
-						if calleeIs(call, pContext, "DataContext", "GetValue") {
-							n++
-							continue
-						}
-						if cal := call.Call.StaticCallee(); cal != nil && cal.Name() == "Evaluate" && cal.Pkg != nil && cal.Pkg.Pkg.Path() == pBase {
-							n++
-							continue
-						}
-					}
-				}
-				if call, isCall := o.(*ssa.Call); isCall && fnIs(call.Call.StaticCallee(), "reflect", "", "ValueOf") {
-					if cc, isC := x.Unwrap(call.Call.Args[0]).(*ssa.Const); isC && cc.Value == nil {
-						continue // no value, with an error
-					}
-				}
-				bad, badPos = x.Describe(o), r.Pos()
-			}
-		})
-		c.Check("I4-positional", "Arg.Evaluate#value-as-read", bad == "" && n >= 7, badPos, "an argument must be the value its evaluation yielded, unchanged (%d pass-through returns found): %s", n, orStr(bad, "ok"))
+		c.ruleValueAsRead("I4-positional", "Arg.Evaluate#value-as-read", f, func(call *ssa.Call) bool {
+			return calleeIs(call, pContext, "DataContext", "GetValue") || isNodeEval(call)
+		}, 7, "an argument must be the value its evaluation yielded, unchanged")
+	}
+	// a call node yields what the data context's call of the injected function yielded: the name is looked
+	// up in the injected table on every call (a name that is injected always refers to the injected
+	// object, also after the host replaced or removed it), nothing is answered by the node itself
+	for _, spec := range [][2]string{{"FunctionCall", "ExecFunc"}, {"MethodCall", "ExecMethod"}, {"ThreeLevelCall", "ExecThreeLevel"}} {
+		if f := c.MustFn("I4-positional", "internal/base", spec[0], "Evaluate"); f != nil {
+			exec := spec[1]
+			c.ruleValueAsRead("I4-positional", spec[0]+".Evaluate#result-of-the-injected-call", f, func(call *ssa.Call) bool {
+				return calleeIs(call, pContext, "DataContext", exec)
+			}, 1, "a call node must yield the first result of DataContext."+exec+" for its own name, unchanged")
+		}
 	}
 	// ---- I6: the element addressed is the one named by the key, the value stored is the one assigned
 	c.ruleI6("I6-key-and-value-reach-access")
@@ -1430,4 +1415,36 @@ func (c *Ctx) callersOf(pkg, recv, name string) []string {
 	}
 	sort.Strings(out)
 	return out
+}
+
+// ruleValueAsRead: every return of the evaluator hands on, as its value, the first result of one of the
+// accepted calls, unchanged -- or no value (reflect.ValueOf(nil), the unassigned result) beside an error.
+func (c *Ctx) ruleValueAsRead(rule, key string, f *ssa.Function, accept func(*ssa.Call) bool, min int, what string) {
+	x := c.Index(f)
+	bad, badPos, n := "", f.Pos(), 0
+	eachInstr(f, func(in ssa.Instruction) {
+		r, isRet := in.(*ssa.Return)
+		if !isRet || len(r.Results) != 2 || bad != "" {
+			return
+		}
+		for _, pv := range x.ValuesAt(r.Results[0], r) {
+			if pv.V == nil {
+				continue
+			}
+			o := x.Origin(pv.V)
+			if ex, isEx := o.(*ssa.Extract); isEx && ex.Index == 0 {
+				if call, isCall := ex.Tuple.(*ssa.Call); isCall && accept(call) {
+					n++
+					continue
+				}
+			}
+			if call, isCall := o.(*ssa.Call); isCall && fnIs(call.Call.StaticCallee(), "reflect", "", "ValueOf") {
+				if cc, isC := x.Unwrap(call.Call.Args[0]).(*ssa.Const); isC && cc.Value == nil {
+					continue // no value, with an error
+				}
+			}
+			bad, badPos = x.Describe(o), r.Pos()
+		}
+	})
+	c.Check(rule, key, bad == "" && n >= min, badPos, "%s (%d pass-through returns found): %s", what, n, orStr(bad, "ok"))
 }
